@@ -48,6 +48,14 @@ func Probe(goderive, work string, types []*Type, calls []Call, vet bool) []Probe
 			return
 		}
 		g := p.Generate(goderive)
+		if c := ClassifyGoderive(g); c == "other-error" || c == "timeout" {
+			// not a diagnostic of goderive: retry once (process start failures under load), keep the output
+			first := g
+			g = p.Generate(goderive)
+			if ClassifyGoderive(g) != c {
+				g.Out += "\n[first attempt: exit " + fmt.Sprint(first.Exit) + " " + hx.Truncate(first.Out, 300) + "]"
+			}
+		}
 		res := ProbeResult{GenExit: g.Exit, GenClass: ClassifyGoderive(g), GenOut: hx.Truncate(g.Out, 2000)}
 		if g.Exit == 0 {
 			res.Derived = p.Derived()
